@@ -134,14 +134,36 @@ Proof.
   now rewrite H.
 Qed.
 
-(* the table is verified against the executable interpretation: each synonym has the same meaning as its canonical name *)
-Lemma std_fenv_respects_synonyms : respects (std_fenv []) synonyms.
+Local Open Scope string_scope.
+(* the part of the table that is verified: each synonym with an executable meaning has the SAME `builtin` as its canonical
+   name (not merely the same default for unknown names), and that meaning is defined and not NULL on some arguments *)
+Lemma builtin_respects_synonyms : forall f args, builtin (canon synonyms_builtin f) args = builtin f args.
 Proof.
-  intros f args. unfold synonyms. cbn [canon].
+  intros f args. unfold synonyms_builtin. cbn [canon].
   destruct (String.eqb_spec f "jaro_sim") as [->|N1]; [reflexivity|].
   destruct (String.eqb_spec f "jaro_winkler") as [->|N2]; [reflexivity|].
   destruct (String.eqb_spec f "size") as [->|N3]; [reflexivity|].
   destruct (String.eqb_spec f "array_intersect") as [->|N4]; [reflexivity|].
-  destruct (String.eqb_spec f "unix_timestamp") as [->|N5]; [reflexivity|].
   reflexivity.
+Qed.
+Lemma synonyms_builtin_defined : forall a b, In (a, b) synonyms_builtin ->
+  exists args v, builtin a args = Some v /\ builtin b args = Some v /\ v <> VNull.
+Proof.
+  intros a b H. unfold synonyms_builtin in H. cbn in H.
+  destruct H as [E|[E|[E|[E|[]]]]]; injection E as <- <-.
+  - exists [VStr "martha"; VStr "marhta"]. eexists. repeat split; try (vm_compute; reflexivity). discriminate.
+  - exists [VStr "martha"; VStr "marhta"]. eexists. repeat split; try (vm_compute; reflexivity). discriminate.
+  - exists [VArr ["a"; "b"]]. eexists. repeat split; try (vm_compute; reflexivity). discriminate.
+  - exists [VArr ["a"; "b"]; VArr ["b"; "c"]]. eexists. repeat split; try (vm_compute; reflexivity). discriminate.
+Qed.
+(* an interpretation extends the verified part to the X-only synonyms exactly when it identifies those names *)
+Lemma respects_app fenv s1 s2 :
+  (forall f, In f (map fst s1) -> ~ In f (map fst s2)) ->
+  (forall f, In f (map snd s1) -> ~ In f (map fst s2)) ->
+  respects fenv s1 -> respects fenv s2 -> respects fenv (s1 ++ s2).
+Proof.
+  intros D1 D2 H1 H2 f args. unfold respects in *.
+  assert (E : forall l, canon (l ++ s2) f = (if existsb (String.eqb f) (map fst l) then canon l f else canon s2 f)).
+  { induction l as [|[a b] t IH]; cbn; [reflexivity|]. destruct (String.eqb f a); [reflexivity|]. apply IH. }
+  rewrite E. destruct (existsb (String.eqb f) (map fst s1)); auto.
 Qed.
